@@ -299,6 +299,22 @@ def check_paths(run, router, keys, quick, samples, distinct):
                     steps.append({"op": "route", "proto": "P", "sql": "SELECT * FROM %s WHERE %s = $1" % (tb, col)}); exp.append(("parse", None))
                     steps.append({"op": "bind", "hex": bind_msg([struct.pack(">h", k)], [1, ])}); exp.append(("bind_bin2", oracle(k, n)))
                 cases.append({"settings": base, "steps": steps}); meta.append((func, n, k, exp))
+    # activity-based routing on (F39): a read pinned to the primary because the database is in its Initializing window
+    # (fresh database name, long init delay => deterministic) or because its table was written a moment ago
+    # (mutation cache) still has to be routed by its key; the shard selected beforehand differs
+    for ki, k in enumerate([x for x in sub if x >= 0][:24 if quick else 200]):
+        n, func, oracle = 5, "pg", pg_partition
+        base = {"shards": n, "func": func, "parser": True, "splitting": True, "auto_key": "data.id", "activity": True,
+                "db": "c06_act_%d_%d" % (os.getpid(), ki), "activity_init_delay": 60000 if ki % 2 == 0 else 0}
+        other = (oracle(k, n) + 1 + ki % (n - 1)) % n
+        steps, exp = [], []
+        if ki % 2:
+            steps.append({"op": "route", "sql": "UPDATE data SET v = v + 1 WHERE v > 3"}); exp.append(("act_write", None))
+        steps.append({"op": "command", "sql": "SET SHARD TO %d" % other}); exp.append(("set_shard", None))
+        steps.append({"op": "route", "sql": "SELECT * FROM data WHERE id = %d" % k}); exp.append(("literal_activity_%s" % ("cache" if ki % 2 else "init"), oracle(k, n)))
+        steps.append({"op": "command", "sql": "SET SHARD TO %d" % other}); exp.append(("set_shard", None))
+        steps.append({"op": "route", "sql": "SELECT 1; SELECT v FROM data WHERE data.id = %d" % k}); exp.append(("literal_activity_multi", oracle(k, n)))
+        cases.append({"settings": base, "steps": steps}); meta.append((func, n, k, exp))
     res = RL.run_router(router, cases)
     for (func, n, k, exp), r in zip(meta, res):
         for (path, want), o in zip(exp, r["out"]):
